@@ -298,6 +298,30 @@ fn oset_iteration_n3() {
     kani::cover!(n == 1);
 }
 
+// Concrete inputs (no quantification).  Kept only because a change that makes the length symbolic
+// BEFORE a sort (e.g. dedup-then-sort) turns every symbolic from_iter harness into a timeout
+// (inconclusive); these still execute the real code under Kani and report such a change.
+macro_rules! from_iter_concrete_harness {
+    ($name:ident, $input:expr, $expected:expr) => {
+        #[kani::proof]
+        #[kani::unwind(8)]
+        fn $name() {
+            let set: Oset<u8> = $input.into_iter().collect();
+            let expected: &[u8] = &$expected;
+            assert!(set.len() == expected.len(), "from_iter keeps duplicates or loses elements");
+            let mut i = 0;
+            while i < expected.len() {
+                assert!(set[i] == expected[i]);
+                i += 1;
+            }
+            kani::cover!(true);
+        }
+    };
+}
+from_iter_concrete_harness!(oset_from_iter_concrete_313, [3u8, 1, 3], [1u8, 3]);
+from_iter_concrete_harness!(oset_from_iter_concrete_2212, [2u8, 2, 1, 2], [1u8, 2]);
+from_iter_concrete_harness!(oset_from_iter_concrete_54321, [5u8, 4, 3, 2, 1], [1u8, 2, 3, 4, 5]);
+
 // Vacuity twin: the same set-up as the insert harness with a false claim must FAIL.
 #[kani::proof]
 #[kani::unwind(6)]
